@@ -788,6 +788,25 @@ impl<T> Block for NoCopyFileSink<T>""")]),
 """)]),
     dict(name="c04-mt-closed-shortcut", prop="C04", expect="C04.R5:<mtgraph::MTGraph as graph::GraphRunner>::run::{closure#0}",
          edits=[E("src/mtgraph.rs", "let eof = stream.wait(need);", "let eof = stream.closed() || stream.wait(need);")]),
+    dict(name="g2r12+abort-helper-forgets-cancel", prop="C07", expect="C07.R7:",
+         patch="/verif/neutral_seeded/g2-r12/patch.diff", edits=[],
+         post_edits=[E("src/mtgraph.rs", "    error!(\"Block work function failed: {e}\");\n    cancel_token.cancel();\n    e\n", "    error!(\"Block work function failed: {e}\");\n    let _ = cancel_token;\n    e\n")]),
+    dict(name="g1r12+store-helper-dedups", prop="C02", expect="C02.R14:",
+         patch="/verif/neutral_seeded/g1-r12/patch.diff", edits=[],
+         post_edits=[E("src/circular_buffer.rs", "            self.tags.entry(abs_pos).or_default().push(rebased);",
+                       "            let on_sample = self.tags.entry(abs_pos).or_default();\n            if on_sample.last() != Some(&rebased) {\n                on_sample.push(rebased);\n            }")]),
+    dict(name="f1r11+backoff-clamp-dropped", prop="C07", expect="C07.R10:",
+         patch="/verif/neutral_seeded/f1-r11/patch.diff", edits=[],
+         post_edits=[E("src/mtgraph.rs", "idle_sleep = (idle_sleep * 2).min(std::time::Duration::from_millis(16));", "idle_sleep = idle_sleep * 2;")]),
+    dict(name="f1r11+finish-ignores-stream-eof", prop="C05", expect="C05.R",
+         patch="/verif/neutral_seeded/f1-r11/patch.diff", edits=[],
+         post_edits=[E("src/mtgraph.rs", "                                if b.eof() || eof {", "                                if b.eof() && eof {")]),
+    dict(name="r12-c02-store-capped-per-sample", prop="C02", expect="C02.R14:",
+         edits=[E("src/circular_buffer.rs", "            s.tags.entry(pos).or_default().push(tag);",
+                  "            let on_sample = s.tags.entry(pos).or_default();\n            if on_sample.len() < 8 {\n                on_sample.push(tag);\n            }")]),
+    dict(name="r12-c02-store-skips-by-key", prop="C02", expect="C02.R14:",
+         edits=[E("src/circular_buffer.rs", "            let pos = (tag.pos() + s.wpos) % s.capacity();",
+                  "            if tag.key().is_empty() {\n                continue;\n            }\n            let pos = (tag.pos() + s.wpos) % s.capacity();")]),
 ]
 
 ALL_BUILT = ["C03", "C08", "C12", "C13", "C14", "C15", "C19", "C01", "C02", "C04", "C05", "C06", "C07", "C09", "C16", "C17", "C18"]
@@ -887,4 +906,7 @@ NEUTRAL = [
         }""")]),
     dict(name="n-map-errpath-reorder", props=["C18"],
          edits=[E("src/circular_buffer.rs", "        let fd = f.as_raw_fd();\n        let flags = MAP_SHARED | if ptr.is_null() { 0 } else { MAP_FIXED };", "        let flags = if ptr.is_null() { MAP_SHARED } else { MAP_SHARED | MAP_FIXED };\n        let fd = f.as_raw_fd();")]),
+    dict(name="n-c02-store-through-binding", props=["C02", "C12", "C01", "C03"],
+         edits=[E("src/circular_buffer.rs", "            s.tags.entry(pos).or_default().push(tag);",
+                  "            let on_sample = s.tags.entry(pos).or_default();\n            if on_sample.is_empty() {\n                on_sample.reserve(2);\n            }\n            on_sample.push(tag);")]),
 ]
